@@ -54,14 +54,19 @@ def make_solution(gene, picks, seed, display_format=False, with_added=True, with
         if with_added and allm and rng.random() < 0.4:
             from aldy.gene import Mutation
 
+            # (an insertion and another variant may share a position: the insertion sits behind that base)
             cand = [Mutation(*m) for m in allm if Mutation(*m) not in own and gene.has_coverage(an, m[0])
-                    and not any(o.pos == m[0] for o in own)]
+                    and not any(o.pos == m[0] and o.op.startswith("ins") == m[1].startswith("ins") for o in own)]
             rng.shuffle(cand)
+            # directed: prefer a variant that shares its position with one the allele already has (insertion next to a substitution)
+            same = [m for m in cand if any(o.pos == m.pos for o in own)]
+            if same:
+                cand = same[:1] + [m for m in cand if m is not same[0]]
             pos_used = set()
             for m in cand[:rng.randrange(1, 3)]:
-                if m.pos not in pos_used:
+                if (m.pos, m.op.startswith("ins")) not in pos_used:
                     added.append(m)
-                    pos_used.add(m.pos)
+                    pos_used.add((m.pos, m.op.startswith("ins")))
         if with_missing and rng.random() < 0.3:
             sil = sorted(a.minors[mn].neutral_muts)
             if sil:
